@@ -63,7 +63,10 @@ META = {
         "channel of the registry (document attribute, env.metadata key, per-document map in an attribute) takes fields out by "
         "tuple unpacking, record variable, .get, positional index or .items()/.values() loops; the ID position must reach an id "
         "sink (['refid'], make_refnode targetid, refid=/targetid= keywords), only the TITLE position a text sink, also through "
-        "package helpers and `a or b` / conditional copies. "
+        "package helpers and `a or b` / conditional copies; and the key under which a reader searches the table (subscript, "
+        ".get, membership test; names and package helpers resolved) is not passed through a many-to-one mapping (docutils name "
+        "normalisers, make_id, case folding, Unicode normalisation, re-slugging), because the writer records each slug exactly "
+        "as the - possibly custom, case-preserving - slug function returned it. "
         "R6 in the function that resolves '#anchor' links from the slug table, any table consulted earlier is filled - in place or "
         "in the helper that returns it - only under docutils' explicit flag (value of nametypes.items() or nametypes[name]): "
         "implicit section names, which derive from the same titles as the slugs, never pre-empt a slug."
@@ -74,7 +77,9 @@ META = {
         "(the CLI does not process includes); explicit targets that deliberately shadow a slug of the same name (documented "
         "priority, C09); how the configuration values heading_anchors / heading_slug_func reach the renderer (validation and "
         "file-level merge: C13); survival of the published slug table across Sphinx parallel workers (C15); the warning issued "
-        "for a missing cross-document anchor (C12); the CLI is compared with a default-configured render only (it cannot see conf.py)"
+        "for a missing cross-document anchor (C12); the CLI is compared with a default-configured render only (it cannot see conf.py); "
+        "the percent-encoding markdown-it applies to a link fragment before it reaches the resolver (non-ASCII anchors), and key "
+        "transformations other than the tabled many-to-one mappings"
     ),
     "trusted_base": [
         "CPython ast and re._parser",
@@ -1928,7 +1933,7 @@ def _text_sink_names(f: FunctionInfo, corpus: Corpus | None = None) -> set[str]:
 
 @rule("C10.R5")
 def r5_record_layout(corpus: Corpus, rep: Report, tier: str):
-    rep.rule("C10.R5", "slug record (LINE, ID, TITLE): every reader of the exported registry sends the ID position to refid/targetid and the TITLE position to text")
+    rep.rule("C10.R5", "slug record (LINE, ID, TITLE): every reader of the exported registry sends the ID position to refid/targetid and the TITLE position to text, and searches the table under the link fragment as written")
     wfi, wst, reg, kinds = _writer(corpus)
     rep.saw_function(wfi.fq)
     p_id, p_title = kinds.index("ID"), kinds.index("TITLE")
@@ -1947,9 +1952,97 @@ def r5_record_layout(corpus: Corpus, rep: Report, tier: str):
                 n_readers += 1
                 rep.saw_function(f.fq)
                 _check_reader(f, r, name, kinds, p_id, p_title, rep, corpus)
+                _check_lookup_keys(f, r, name, rep, corpus)
         if not found:
             rep.error("C10.R5", f"registry published as {kind} `{name}` ({esite}) has no reader in the package")
     rep.expect_min("C10.R5", 2, "readers of document.myst_slugs and env.metadata[...]['myst_slugs']")
+
+
+# functions/methods that map different strings to one (name normalisers, id makers, case folding): a slug that is not a
+# fixed point of them - any case-preserving custom slug function produces such slugs - cannot be found under the mapped key
+_LOSSY_KEY_MAPS = {
+    "fully_normalize_name": "docutils lower-cases and collapses white space",
+    "whitespace_normalize_name": "docutils collapses white space",
+    "make_id": "docutils reduces the string to an ASCII identifier",
+    "lower": "case folding",
+    "casefold": "case folding",
+    "upper": "case folding",
+    "title": "case mapping",
+    "capitalize": "case mapping",
+    "normalize": "Unicode normalisation",
+    "slugify": "slugging the link fragment again",
+    "default_slugify": "slugging the link fragment again",
+}
+
+
+def _key_sources(corpus: Corpus | None, f: FunctionInfo, e: ast.expr, depth: int = 3) -> list[ast.expr]:
+    """The expressions a lookup key is computed from: plain names are replaced by their definitions in ``f`` (closure
+    scopes included), calls of package helpers by what the helper returns."""
+    if depth <= 0:
+        return [e]
+    if isinstance(e, ast.Name):
+        scope: FunctionInfo | None = f
+        while scope is not None and not scope.is_lambda:
+            ds = [d for d in _assigns_to(scope, e.id) if getattr(d, "value", None) is not None and not isinstance(d, ast.AugAssign)]
+            if ds:
+                out: list[ast.expr] = []
+                for d in ds:
+                    out.extend(_key_sources(corpus, scope, d.value, depth - 1))
+                return out
+            if e.id in scope.params:
+                return [e]
+            scope = scope.parent_func
+        return [e]
+    if isinstance(e, ast.Call) and corpus is not None:
+        hs = _package_helpers(corpus, f, e)
+        if hs:
+            out = []
+            for h in hs:
+                for r in walk_local(h.node):
+                    if isinstance(r, ast.Return) and r.value is not None:
+                        out.extend(_key_sources(corpus, h, r.value, depth - 1))
+            return out or [e]
+    return [e]
+
+
+def _check_lookup_keys(f: FunctionInfo, r: ast.AST, name: str, rep: Report, corpus: Corpus | None) -> None:
+    """The writer records each slug under the string the slug function returned; a reader must look the link fragment up
+    as written, not under a many-to-one mapping of it."""
+    var = _reader_var(r)
+    if var is None:
+        return  # R5's reader check reports it
+    keys: dict[str, ast.expr] = {}
+    for n in f.local_nodes():
+        if not (isinstance(n, ast.Name) and n.id == var and isinstance(n.ctx, ast.Load)):
+            continue
+        q = parent(n)
+        if isinstance(q, ast.Subscript) and q.value is n:
+            keys.setdefault(unparse(q.slice), q.slice)
+        elif isinstance(q, ast.Compare) and len(q.ops) == 1 and isinstance(q.ops[0], (ast.In, ast.NotIn)) and q.comparators[0] is n:
+            keys.setdefault(unparse(q.left), q.left)
+        elif isinstance(q, ast.Attribute) and q.attr == "get" and isinstance(parent(q), ast.Call) and parent(q).func is q and parent(q).args:
+            keys.setdefault(unparse(parent(q).args[0]), parent(q).args[0])
+    for text, kexpr in sorted(keys.items()):
+        k = f"{f.fq}|{name} looked up under the link fragment as written|{text}"
+        lossy = None
+        for src in _key_sources(corpus, f, kexpr):
+            for c in ast.walk(src):
+                if isinstance(c, ast.Call):
+                    last = (dotted(c.func) or (c.func.attr if isinstance(c.func, ast.Attribute) else "")).split(".")[-1]
+                    if last in _LOSSY_KEY_MAPS:
+                        lossy = (c, last)
+        if lossy is not None:
+            c, last = lossy
+            rep.violation(
+                "C10.R5",
+                k,
+                f.module.site(c),
+                f"the slug table is searched under `{short(c, 60)}` ({_LOSSY_KEY_MAPS[last]}), but slugs are recorded exactly as the slug function returned them: "
+                "an anchor produced by a custom heading_slug_func that keeps case or white space (e.g. 'Plain-title') no longer resolves through '#Plain-title'",
+                [f"{f.module.site(kexpr)} key `{text}`", f"{f.module.site(c)} {short(c, 60)}"],
+            )
+        else:
+            rep.ok("C10.R5", k, f.module.site(kexpr), "no case-folding / name-normalising call between the link fragment and the lookup")
 
 
 def _reader_var(r: ast.AST) -> str | None:
@@ -2448,6 +2541,31 @@ def mutants(corpus: Corpus):
             s3 = splice(tm.src, g.test, "False")
             s3 = splice(s3, loop.iter.func.value, segment(tm.src, loop.iter.func.value.value) + ".nameids")
             out.append(Mutant("c10-preempt-nameids-items", "C10.R6", tm.rel, s3, expect="pre-empted"))
+    # ---- R5: class "the slug table is searched under a many-to-one mapping of the link fragment"
+    slug_if = find_node(ap, lambda n: isinstance(n, ast.If) and isinstance(n.test, ast.Compare) and isinstance(n.test.ops[0], ast.In) and isinstance(n.test.left, ast.Name) and isinstance(n.test.comparators[0], ast.Name) and any(isinstance(x, ast.Subscript) and isinstance(x.value, ast.Name) and x.value.id == n.test.comparators[0].id for st in n.body for x in ast.walk(st)) and _stores_refid(n.body) and "slug" in n.test.comparators[0].id)
+    if slug_if is not None:
+        kname = slug_if.test.left.id
+        tab = slug_if.test.comparators[0].id
+        kdefs = [d for d in _assigns_to(ap, kname) if isinstance(d, ast.Assign)]
+        if len(kdefs) == 1:
+            out.append(Mutant("c10-slug-lookup-normalised-fragment", "C10.R5", tm.rel, splice(tm.src, kdefs[0].value, f"nodes.fully_normalize_name({segment(tm.src, kdefs[0].value)})"), expect="as written"))
+        sub_ = find_node(ap, lambda n: isinstance(n, ast.Subscript) and isinstance(n.value, ast.Name) and n.value.id == tab and isinstance(n.slice, ast.Name) and n.slice.id == kname)
+        if sub_ is not None:
+            s4 = splice(tm.src, sub_.slice, f"{kname}.lower()")
+            s4 = splice(s4, slug_if.test.left, f"{kname}.lower()")  # the test precedes the subscript
+            out.append(Mutant("c10-slug-lookup-case-folded", "C10.R5", tm.rel, s4, expect="as written"))
+            other = find_node(ap, lambda n: isinstance(n, ast.Assign) and isinstance(n.value, ast.Call) and (dotted(n.value.func) or "").endswith("fully_normalize_name") and isinstance(n.targets[0], ast.Name))
+            if other is not None and other.lineno < slug_if.lineno:
+                on = other.targets[0].id
+                s5 = splice(tm.src, sub_.slice, on)
+                s5 = splice(s5, slug_if.test.left, on)
+                out.append(Mutant("c10-slug-lookup-reuses-normalised-name", "C10.R5", tm.rel, s5, expect="as written"))
+    rm_ = corpus.mod("sphinx_ext.myst_refs")
+    rd = rm_.functions.get("MystReferenceResolver.resolve_myst_ref_doc")
+    if rd is not None:
+        kd = find_node(rd, lambda n: isinstance(n, (ast.Assign, ast.AnnAssign)) and n.value is not None and isinstance(n.value, ast.Subscript) and isinstance(n.value.slice, ast.Constant) and n.value.slice.value == "reftargetid")
+        if kd is not None:
+            out.append(Mutant("c10-doc-anchor-lookup-case-folded", "C10.R5", rm_.rel, splice(rm_.src, kd.value, f"({segment(rm_.src, kd.value)} or '').lower()"), expect="as written"))
     # ---- R3
     for fi, call in _cus_call_sites(corpus):
         if fi.module is not base:
